@@ -139,35 +139,54 @@ func c13Constructed(r *fw.Rec, sc string, idx, rounds int) {
 }
 
 func c13Rounds(r *fw.Rec, sc, id, input string, mk func() *ir.Module, rounds int) {
-	twin := mk()
-	expect, pp := printGuard(twin)
-	if pp != "" {
-		r.Inconclusive("sequential print of the twin panics (C01/C08 business)")
-		return
-	}
+	// Expected texts come from a separately built twin printed sequentially. In
+	// the fresh scenario the twin is printed only after the first concurrent
+	// round: every case runs in its own process, so the first printing activity
+	// of the process is then the concurrent one (process-level state that the
+	// first print initialises - memo tables, pools - is not warmed up by the
+	// harness beforehand).
+	//
 	// Per-function / per-global expected texts. A per-object printer on a
 	// never-printed module may be ordered before or after the first whole-module
 	// print (which assigns global and metadata IDs), so two sequential texts are
 	// legitimate: the lone call on a never-printed twin (A) and the lone call
 	// after a module print (B). Anything else (e.g. a mix of both numberings) is
 	// not the text of any sequential order.
+	var expect string
 	var expFuncs, expGlobals [][2]string
-	for _, f := range twin.Funcs {
-		expFuncs = append(expFuncs, [2]string{f.LLString(), ""})
-	}
-	for _, g := range twin.Globals {
-		expGlobals = append(expGlobals, [2]string{g.LLString(), ""})
-	}
-	for i := range expFuncs {
-		tw := mk()
-		p, _, _ := fw.Guard(func() { expFuncs[i][1] = tw.Funcs[i].LLString() })
-		if p {
-			expFuncs[i][1] = expFuncs[i][0]
+	haveExp := false
+	computeExp := func() bool {
+		twin := mk()
+		var pp string
+		expect, pp = printGuard(twin)
+		if pp != "" {
+			return false
 		}
+		for _, f := range twin.Funcs {
+			expFuncs = append(expFuncs, [2]string{f.LLString(), ""})
+		}
+		for _, g := range twin.Globals {
+			expGlobals = append(expGlobals, [2]string{g.LLString(), ""})
+		}
+		for i := range expFuncs {
+			tw := mk()
+			p, _, _ := fw.Guard(func() { expFuncs[i][1] = tw.Funcs[i].LLString() })
+			if p {
+				expFuncs[i][1] = expFuncs[i][0]
+			}
+		}
+		for i := range expGlobals {
+			tw := mk()
+			expGlobals[i][1] = tw.Globals[i].LLString()
+		}
+		haveExp = true
+		return true
 	}
-	for i := range expGlobals {
-		tw := mk()
-		expGlobals[i][1] = tw.Globals[i].LLString()
+	if sc != "fresh" {
+		if !computeExp() {
+			r.Inconclusive("sequential print of the twin panics (C01/C08 business)")
+			return
+		}
 	}
 	rng := r.Ctx().Rand("c13/" + id)
 	defer verifhook.SetYield(nil)
@@ -180,6 +199,10 @@ func c13Rounds(r *fw.Rec, sc, id, input string, mk func() *ir.Module, rounds int
 			preprinted = true
 		case "fresh":
 			preprinted = false
+		}
+		cold := !haveExp // first printing activity of this process: as many simultaneous whole-module printers as possible
+		if cold {
+			n, procs = 16, 16
 		}
 		old := runtime.GOMAXPROCS(procs)
 		m := mk()
@@ -207,6 +230,8 @@ func c13Rounds(r *fw.Rec, sc, id, input string, mk func() *ir.Module, rounds int
 		start := make(chan struct{})
 		type res struct {
 			what  string
+			kind  string // module | func | global | none
+			idx   int
 			got   string
 			want  string
 			want2 string
@@ -235,21 +260,21 @@ func c13Rounds(r *fw.Rec, sc, id, input string, mk func() *ir.Module, rounds int
 							choice = choice % 5
 						}
 						switch {
-						case choice < 4 || (k == 0 && gi < 2):
-							rs = res{what: "Module.String", got: m.String(), want: expect}
+						case choice < 4 || (k == 0 && (gi < 2 || cold)):
+							rs = res{what: "Module.String", kind: "module", got: m.String()}
 						case choice < 5:
 							var sb strings.Builder
 							nn, err := m.WriteTo(&sb)
-							rs = res{what: "Module.WriteTo", got: sb.String(), want: expect}
+							rs = res{what: "Module.WriteTo", kind: "module", got: sb.String()}
 							if err != nil || nn != int64(sb.Len()) {
 								rs.pmsg = fmt.Sprintf("WriteTo returned n=%d err=%v for %d bytes", nn, err, sb.Len())
 							}
 						case choice < 7 && len(m.Funcs) > 0:
 							fi := grng.Intn(len(m.Funcs))
-							rs = res{what: "Func.LLString", got: m.Funcs[fi].LLString(), want: expFuncs[fi][0], want2: expFuncs[fi][1]}
+							rs = res{what: "Func.LLString", kind: "func", idx: fi, got: m.Funcs[fi].LLString()}
 						case choice < 8 && len(m.Globals) > 0:
 							gi2 := grng.Intn(len(m.Globals))
-							rs = res{what: "Global.LLString", got: m.Globals[gi2].LLString(), want: expGlobals[gi2][0], want2: expGlobals[gi2][1]}
+							rs = res{what: "Global.LLString", kind: "global", idx: gi2, got: m.Globals[gi2].LLString()}
 						case len(m.Funcs) > 0:
 							fi := grng.Intn(len(m.Funcs))
 							f := m.Funcs[fi]
@@ -266,9 +291,9 @@ func c13Rounds(r *fw.Rec, sc, id, input string, mk func() *ir.Module, rounds int
 									}
 								}
 							}
-							rs = res{what: "Type queries"}
+							rs = res{what: "Type queries", kind: "none"}
 						default:
-							rs = res{what: "Module.String", got: m.String(), want: expect}
+							rs = res{what: "Module.String", kind: "module", got: m.String()}
 						}
 					})
 					atomic.AddInt32(&st.active, -1)
@@ -288,8 +313,23 @@ func c13Rounds(r *fw.Rec, sc, id, input string, mk func() *ir.Module, rounds int
 		if preprinted {
 			state = "already-printed"
 		}
+		if !haveExp {
+			if !computeExp() {
+				r.Inconclusive("sequential print of the twin panics (C01/C08 business)")
+				return
+			}
+			r.Tally("rounds", "cold-process-first-print-concurrent")
+		}
 		for gi := range results {
 			for _, rs := range results[gi] {
+				switch rs.kind {
+				case "module":
+					rs.want = expect
+				case "func":
+					rs.want, rs.want2 = expFuncs[rs.idx][0], expFuncs[rs.idx][1]
+				case "global":
+					rs.want, rs.want2 = expGlobals[rs.idx][0], expGlobals[rs.idx][1]
+				}
 				r.Tally("operations", rs.what)
 				if rs.pmsg != "" {
 					r.Violate(fw.Violation{Key: "concurrent-print-fails/" + sc + "/" + rs.what + "/" + classify(firstLine(rs.pmsg)), Input: input,
